@@ -44,9 +44,11 @@ def case_strategy(draw, styles):
         if draw(st.integers(0, 9)) < 2:
             opts.append(["UNIQUE"])
         if draw(st.integers(0, 9)) < 2:
-            opts.append(["REF", draw(gen.reference(styles=styles))])
+            opts.append(["REF", draw(gen.reference(styles=styles)), draw(st.one_of(st.none(), st.none(), gen.plain_ident(min_len=2)))])
         if draw(st.integers(0, 9)) < 2:
             cn = draw(st.one_of(st.none(), gen.plain_ident(min_len=2)))
+            if cn and opts and opts[-1][0] == "REF" and opts[-1][2]:
+                opts[-1][2] = None  # one constraint name per column
             opts.append(["CHECK", cn, draw(check_expr(names, own=nm))])
         if len(opts) > 1:
             opts = [list(o) for o in draw(st.permutations(opts))]
@@ -140,7 +142,7 @@ def build_items(case):
 class C02(Prop):
     id = "C02"
     rule = ("case = one CREATE TABLE of 2..7 columns with any mix of inline NOT NULL / UNIQUE / PRIMARY KEY / "
-            "[CONSTRAINT n] CHECK / REFERENCES and table-level [CONSTRAINT n] PRIMARY KEY (1..3) / UNIQUE (1..4) / "
+            "[CONSTRAINT n] CHECK / [CONSTRAINT n] REFERENCES and table-level [CONSTRAINT n] PRIMARY KEY (1..3) / UNIQUE (1..4) / "
             "CHECK (col op k [AND|OR ...]) / FOREIGN KEY (1..3) REFERENCES ..., each table-level item at any position "
             "among the columns; names plain or delimited; non-trivial = >= 1 table-level item and >= 1 inline "
             "constraint in the same table, or a constraint of >= 3 columns; distinct = SHA-1 of the case")
